@@ -7,7 +7,8 @@ alphabet with registers, stack memory reads/writes, a store through a register p
 uninterpreted call (call_func_ret), stack pointer arithmetic, and (ALPHA_WIDTH) narrow stores into the upper bytes /
 upper word of a 32-bit stack slot whose content is known, with wide and narrow reads of that slot.  Three templates
 with longer blocks add the dummy-phi situation: a register defined by an operation that reads memory, saved in another
-register, the cell stored to, the register restored, in one arm of a triangle / diamond or in a loop body.  The thorough tier adds a fixed list of x86_32
+register, the cell stored to, the register restored, in one arm of a triangle / diamond or in a loop body; and
+5-block templates with a three-predecessor join reached by one definition through two edges, one of them statically dead.  The thorough tier adds a fixed list of x86_32
 functions assembled with miasm's own assembler and lifted with the real x86 lifter (mc/x86funcs.py).
 
 Pipelines (each on a fresh copy of the graph):
@@ -89,8 +90,8 @@ def fake_epilogue(A, epi="add-ret"):
     return [{A.r: A.r + A.a}, ret]
 
 
-def build_graph(n, shape_idx, body_idx, cond_idx, alphabet, conds, epi="add-ret"):
-    shape = irgen.shapes(n)[shape_idx]
+def build_graph(n, shape_idx, body_idx, cond_idx, alphabet, conds, epi="add-ret", shape=None):
+    shape = tuple(tuple(x) for x in shape) if shape is not None else irgen.shapes(n)[shape_idx]
     g = irgen.build(shape, body_idx, cond_idx, alphabet, conds)
     add_epilogue(g.ircfg, g.loc_db, fake_epilogue(g.arch, epi))
     return g
@@ -203,9 +204,10 @@ def states(g):
     bv = VALS if A.b in ids else [2]
     spv = SPS if mem else [0x1000]
     mv = MEMS if mem else ["pattern"]
-    for a, b, sp, mk in itertools.product(av, bv, spv, mv):
-        regs = {A.a: a, A.b: b, A.c: 3, A.r: 7, A.sp: sp, A.zf: 0, A.END: 0xDEAD0000, A.pc: 0}
-        yield regs, cell(sp, mk), "{a=%#x,b=%#x,sp=%#x,mem[sp+4..]=%s}" % (a, b, sp, mk)
+    zv = [0, 1] if A.zf in ids else [0]
+    for a, b, sp, mk, zf in itertools.product(av, bv, spv, mv, zv):
+        regs = {A.a: a, A.b: b, A.c: 3, A.r: 7, A.sp: sp, A.zf: zf, A.END: 0xDEAD0000, A.pc: 0}
+        yield regs, cell(sp, mk), "{a=%#x,b=%#x,sp=%#x,mem[sp+4..]=%s%s}" % (a, b, sp, mk, ",zf=1" if zf else "")
 
 
 def holder_of(reg, res, var2orig):
@@ -308,22 +310,25 @@ def used_entries(body_idx, alphabet):
     return sorted(set(alphabet[k] for b in body_idx for k in b))
 
 
-def check_graph(n, shape_idx, body_idx, cond_idx, alphabet, conds, pipelines=PIPELINES, epi="add-ret"):
+def check_graph(n, shape_idx, body_idx, cond_idx, alphabet, conds, pipelines=PIPELINES, epi="add-ret", shape=None):
+    """shape (explicit successor tuples) overrides the lattice index: templates may have more blocks than the lattice enumerates."""
     pipelines = tuple(pipelines)
-    shape = irgen.shapes(n)[shape_idx]
+    shape = tuple(tuple(x) for x in shape) if shape is not None else irgen.shapes(n)[shape_idx]
     case = {"kind": "irgen", "n": n, "shape": shape_idx, "bodies": body_idx, "conds": cond_idx, "alphabet": alphabet, "condnames": conds,
             "pipelines": list(pipelines), "epilogue": epi}
+    if shape_idx is None:
+        case["shape_tuple"] = [list(x) for x in shape]
     desc0 = irgen.describe(shape, body_idx, cond_idx, alphabet, conds) + (" [exit blocks end with: %s]" % ("r=r+a; sp=sp+4" if epi == "add-ret" else "sp=sp+4"))
     kind = "loop" if not irgen.shape_is_loop_free(shape) else "dag"
     info = {"states": 0, "skipped_states": 0, "compared": 0, "runs_with_writes": 0, "runs_with_calls": 0, "changed": 0, "raised": 0, "pipeline_runs": 0}
     vs = []
-    g0 = build_graph(n, shape_idx, body_idx, cond_idx, alphabet, conds, epi)
+    g0 = build_graph(n, shape_idx, body_idx, cond_idx, alphabet, conds, epi, shape)
     it0 = irinterp.Interp(g0.loc_db)
     before = graph_text(g0.ircfg)
     for pipeline in pipelines:
         info["pipeline_runs"] += 1
         desc = "[%s] %s" % (pipeline, desc0)
-        g = build_graph(n, shape_idx, body_idx, cond_idx, alphabet, conds, epi)
+        g = build_graph(n, shape_idx, body_idx, cond_idx, alphabet, conds, epi, shape)
         lifter = out_regs_lifter(type(g.lifter), g.loc_db) if pipeline == "ssa-outregs" else g.lifter
         try:
             out, var2orig = guarded(lambda: run_pipeline(pipeline, lifter, g.ircfg, g.head))
@@ -401,6 +406,20 @@ TEMPLATES = [
      ["b", None, None, None]),
     ("dummy-phi/store-in-a-loop-body", ((1,), (1, 2), ()), [_DEFS[:3], [x + ("a=a+1",) for x in _ARMS[:4]], [()]], [None, "a", None]),
 ]
+# A join with three predecessors: the definition made in B0 reaches it through two edges (from B1 and from B2), another
+# definition through the third; one of the edges out of B1 is statically dead (zf set from a constant, or a literal
+# condition), so the SSA pipeline deletes it and must keep the phi source that still arrives through B2.
+_J3A = ((1, 2), (3, 4), (3,), (), (3,))      # B1: cond ? join(3) : B4 ; B4: other definition -> join
+_J3B = ((1, 2), (3, 4), (4,), (4,), ())      # B1: cond ? B3 : join(4) ; B3: other definition -> join
+_SHARED = [("r=a",), ("a=a+1",)]
+_OTHER = [("r=b",), ("a=b",)]
+for _nm, _sh, _jn, _ot in (("a", _J3A, 3, 4), ("b", _J3B, 4, 3)):
+    for _cond, _b1 in (("zf", [("zf=0",), ("zf=1",), ()]), ("0", [()]), ("1", [()])):
+        _alts = [_SHARED, _b1, [()], None, None]
+        _alts[_jn] = [()]
+        _alts[_ot] = _OTHER
+        _cn = ["b", _cond, None, None, None]
+        TEMPLATES.append(("three-predecessor-join/%s/B1-condition-%s" % (_nm, _cond), _sh, _alts, _cn))
 
 
 def template_point(ti, choice):
@@ -412,7 +431,7 @@ def template_point(ti, choice):
     conds = sorted(set(c for c in cond_names if c)) or ["a"]
     body_idx = tuple(tuple(alphabet.index(x) for x in b) for b in bodies)
     cond_idx = tuple(conds.index(c) if c else 0 for c in cond_names)
-    return n, irgen.shapes(n).index(shape), body_idx, cond_idx, alphabet, conds
+    return n, None, body_idx, cond_idx, alphabet, conds
 
 
 def _template_shard(args):
@@ -423,7 +442,7 @@ def _template_shard(args):
     for choice in itertools.product(*[range(len(a)) for a in alts]):
         cnt += 1
         n, si, body_idx, cond_idx, alphabet, conds = template_point(ti, choice)
-        v, info = check_graph(n, si, body_idx, cond_idx, alphabet, conds, pipelines, epi)
+        v, info = check_graph(n, si, body_idx, cond_idx, alphabet, conds, pipelines, epi, shape)
         for k, x in info.items():
             tot[k] = tot.get(k, 0) + x
         if info["changed"] and info["compared"]:
@@ -581,7 +600,7 @@ def run(ctx):
         "state_runs_compared": tot.get("compared", 0),
         "compared_runs_with_memory_writes": tot.get("runs_with_writes", 0),
         "compared_runs_with_call_events": tot.get("runs_with_calls", 0),
-        "template_graphs(dummy phi over a memory-reading definition)": tot.get("template_graphs", 0),
+        "template_graphs(dummy phi; three-predecessor join)": tot.get("template_graphs", 0),
         "x86_functions": nx86,
         "graphs_not_run_after_repeated_non_termination": tot.get("not_run", 0),
         "violating_graphs_by_signature": sigcount,
@@ -599,4 +618,5 @@ def replay(case):
     if case.get("kind") == "x86":
         return check_x86(case["index"])[0]
     return check_graph(case["n"], case["shape"], tuple(tuple(b) for b in case["bodies"]), tuple(case["conds"]), list(case["alphabet"]),
-                       list(case["condnames"]), tuple(case.get("pipelines", PIPELINES)), case.get("epilogue", "add-ret"))[0]
+                       list(case["condnames"]), tuple(case.get("pipelines", PIPELINES)), case.get("epilogue", "add-ret"),
+                       case.get("shape_tuple"))[0]
